@@ -251,6 +251,28 @@ def _body(case, ctx):
             want = 0.5 * (r1.position_collection[:dim, 1:] + r1.position_collection[:dim, :-1])
             if not _same_bits(io2.rod_element_position, want) or not _same_bits(r2.radius, r1.radius):
                 raise Violation("CosseratRodIO: element positions / radii not restored bit-exactly")
+        # (ii-b) the same IO objects used again: second save after the sources changed, loaded by the already-used reader
+        if cls == "IO" and (reg["eul"] or reg["lag"]):
+            for v in reg["eul"].values():
+                v[...] = np.flip(v.copy()).reshape(v.shape)
+            for g in reg["lag"]:
+                g["grid"][...] = np.flip(g["grid"].copy()).reshape(g["grid"].shape)
+                for v in g["fields"].values():
+                    v[...] = np.flip(v.copy()).reshape(v.shape)
+            fname_b = os.path.join(tmp, "case_0003.h5")
+            t_b = -t if t == t else 0.0
+            with ctx.repo_call("second save with the same IO object"):
+                io.save(h5_file_name=fname_b, time=t_b)
+            with ctx.repo_call("second load with the same IO object"):
+                t3 = io2.load(h5_file_name=fname_b)
+            if np.float64(t3).tobytes() != np.float64(t_b).tobytes():
+                raise Violation(f"second load returned time {t3!r}, file holds {t_b!r}")
+            for k, v in reg2["eul"].items():
+                if not _same_bits(v, reg["eul"][k]):
+                    raise Violation(f"second save/load with the same IO objects: Eulerian field '{k}' holds stale data")
+            for g2, g1 in zip(reg2["lag"], reg["lag"]):
+                if not _same_bits(g2["grid"], g1["grid"]) or any(not _same_bits(v, g1["fields"][k]) for k, v in g2["fields"].items()):
+                    raise Violation("second save/load with the same IO objects: a Lagrangian grid/field holds stale data")
         # (iv) rejection
         _rejection(case, ctx, fname, tmp, gnames)
     finally:
